@@ -16,7 +16,8 @@ logging.disable(logging.CRITICAL)
 
 from rtc import progs  # noqa: E402
 
-REGION_PROPS = {'C07': ('R8', 'R9a', 'R9b', 'R14', 'R15', 'R16', 'R17'), 'C08': ('R8', 'R9a', 'R9b', 'R16', 'R17'), 'C10': ('R14', 'R15', 'R16')}
+REGION_PROPS = {'C07': ('R8', 'R9a', 'R9b', 'R14', 'R15', 'R16', 'R17'), 'C08': ('R8', 'R9a', 'R9b', 'R16', 'R17'), 'C10': ('R14', 'R15', 'R16'),
+                'C17': ('R15', 'R16')}
 INTERNAL = (AssertionError, AttributeError, KeyError, IndexError, RuntimeError, TypeError, ValueError, NameError, RecursionError)
 
 
@@ -396,6 +397,39 @@ def census(src, scfg, out):
     return ('ok', None)
 
 
+def check_c17(src):
+    """C17 on the graphs of the source front end: the graph built from `src` is drawn before and after every restructuring
+    stage that succeeds (a stage that raises is the business of C02/C07) and the DOT source is compared with the hierarchy"""
+    from numba_scfg.core.datastructures.ast_transforms import AST2SCFG
+    from numba_scfg.rendering.rendering import SCFGRenderer
+    from rtc import prop_c17
+    try:
+        scfg = AST2SCFG(src)
+    except NotImplementedError:
+        return ('refused', None)
+    except Exception:
+        return ('skipped', {'kind': 'front-end-raises'})
+    for stage in ('input', 'join', 'loop', 'branch'):
+        try:
+            if stage == 'join':
+                scfg.join_returns()
+            elif stage == 'loop':
+                scfg.restructure_loop()
+            elif stage == 'branch':
+                scfg.restructure_branch()
+        except Exception:
+            break
+        try:
+            prop_c17.check_render(scfg, SCFGRenderer(scfg).g.source, 'scfg')
+        except prop_c17.Bad as e:
+            return ('fail', {'kind': e.args[0][0], 'stage': stage, 'detail': repr(e.args[0][1:])[:200]})
+        except Exception as e:
+            if type(e).__name__ == 'Bad' and e.args and isinstance(e.args[0], tuple):      # the hierarchy index's own complaint (spec.hier)
+                return ('fail', {'kind': 'graph-' + str(e.args[0][0]), 'stage': stage, 'detail': repr(e.args[0][1:])[:200]})
+            return ('fail', {'kind': 'render-raises', 'stage': stage, 'detail': repr(e)[:160]})
+    return ('ok', None)
+
+
 def known_region(src):
     """Syntactic / front-end-CFG predicates of the recorded findings (DESIGN 2.9): a failure of a program that lies
     in none of these regions is a new violation."""
@@ -480,6 +514,7 @@ def work(args):
         try:
             r8 = check_c08(src, ref)
             rr = check_c07_c10(src, ref)
+            r17 = check_c17(src)
             kr = known_region(src)
         except BaseException as e:     # a crash of the checker on one program must not take the pass down
             if isinstance(e, (KeyboardInterrupt, SystemExit)):
@@ -488,7 +523,7 @@ def work(args):
             out.setdefault('checker_exceptions', []).append({'source': src, 'error': repr(e)[:200]})
             continue
         inside = None
-        for prop, r in (('C08', r8), ('C07', rr['C07']), ('C10', rr['C10'])):
+        for prop, r in (('C08', r8), ('C07', rr['C07']), ('C10', rr['C10']), ('C17', r17)):
             relevant = [k for k in kr if k in REGION_PROPS.get(prop, ())]
             if r[0] == 'fail' and relevant:
                 out['counts'][prop + ':known-region-fail'] += 1
